@@ -183,3 +183,124 @@ def confirm_html(binary, prop, v, idx):
         v['replay'] = save_replay(prop, 'mdhtml-%s-%d' % (v['role'], idx), files, "list '**'",
                                   'expected (line, column) of the start tags %s; %s' % (want, v['summary']), v)
     return v
+
+
+def run_mdmerge(task):
+    """MdParser::parse: the blocks found in `[//]: #` comments and those found in HTML comments come from
+    two separate passes and must all come out, each once (real MIR of
+    <MdParser as BlocksParser>::parse with itertools' merge as a model; the two passes are stubs that
+    return blocks with symbolic start positions, each list in source order)."""
+    nmd, nhtml = task
+    prog = driver.load_program()
+    stats = PathStats()
+    f = prog.find_method('MdParser', 'parse')
+    if f is None:
+        raise EngineError('<MdParser as BlocksParser>::parse not in the MIR dump')
+    out = dict(violations=[], samples=[], obligations=0, cover={}, panic_paths=0)
+    holder = {}
+    roles = set()
+
+    def run_path(I):
+        def blocks(tag, n):
+            bs, pos = [], []
+            for k in range(n):
+                ln = I.fresh_int('%s_line%d' % (tag, k), 1, NUM_MAX)
+                ch = I.fresh_int('%s_col%d' % (tag, k), 1, NUM_MAX)
+                if pos:     # each pass delivers its blocks in source order, at distinct places
+                    pl, pc = pos[-1]
+                    I.add(z3.Or(ln > pl, z3.And(ln == pl, ch > pc)))
+                pos.append((ln, ch))
+                bs.append(mk_block(prog, I, {'name': '%s%d' % (tag, k)}, (ln, ch), (ln, ch + 5), (0, 0), (ln, ch + 6), (ln, ch + 6)))
+            return bs, pos
+        md, mdpos = blocks('m', nmd)
+        html, htmlpos = blocks('h', nhtml)
+        # a place holds one tag only
+        for p in mdpos:
+            for q in htmlpos:
+                I.add(z3.Or(p[0] != q[0], p[1] != q[1]))
+        holder.update(mdpos=mdpos, htmlpos=htmlpos)
+        st = I.stubs
+        st['BlocksFromCommentsParser::parse'] = lambda I2, a, ci, dt: Ok(VecVal(md))
+        st['<BlocksFromCommentsParser as BlocksParser>::parse'] = st['BlocksFromCommentsParser::parse']
+        st['BlocksParser::parse'] = st['BlocksFromCommentsParser::parse']
+        st['MdParser::parse_html_blocks'] = lambda I2, a, ci, dt: Ok(VecVal(html))
+        st['parse_html_blocks'] = st['MdParser::parse_html_blocks']
+        order = prog.src.structs.get('MdParser')
+        me = Cell(Struct('MdParser', [Opaque('field:' + n) for n in order]))
+        return I.call_fn(f, [Ref(me, ()), SStr(tuple(b'text'), I.new_alloc(), 0)])
+
+    def viol(I, cond, role, summary):
+        out['obligations'] += 1
+        if role in roles:
+            return
+        if isinstance(cond, bool):
+            cond = z3.BoolVal(cond)
+        if I.check(cond):
+            m = I.solver.model()
+            roles.add(role)
+            out['violations'].append(dict(role=role, summary=summary, mdmerge=True,
+                                          md=[(mval(m, a), mval(m, b)) for a, b in holder['mdpos']],
+                                          html=[(mval(m, a), mval(m, b)) for a, b in holder['htmlpos']]))
+
+    for I, pk, val in explore(prog, models.M, run_path, stats=stats, max_paths=20000):
+        if pk == 'panic':
+            out['panic_paths'] += 1
+            viol(I, True, 'md-merge-panic', 'panic: %s' % val.msg[:120])
+            continue
+        if val.v != 0:
+            viol(I, True, 'md-merge-error', 'MdParser::parse returned Err although both passes succeeded')
+            continue
+        got = list(val.f[0].items)
+        if len(got) != nmd + nhtml:
+            viol(I, True, 'md-blocks-lost', '%d + %d blocks from the two passes, %d returned' % (nmd, nhtml, len(got)))
+            continue
+        names = []
+        pos = []
+        for g in got:
+            at = get_field(prog, g, 'Block', 'attributes')
+            names.append(bytes(as_sstr_b(I, at.entries[0].f[1])).decode())
+            st_ = get_field(prog, g, 'Block', 'start_tag_position_range').f[0]
+            pos.append((get_field(prog, st_, 'Position', 'line'), get_field(prog, st_, 'Position', 'character')))
+        if sorted(names) != sorted(['m%d' % k for k in range(nmd)] + ['h%d' % k for k in range(nhtml)]):
+            viol(I, True, 'md-blocks-lost', 'blocks returned: %s' % names)
+            continue
+        # The order of this list is NOT an obligation: the `list` report sorts by line (blocks.rs,
+        # to_serializable_report, decided in C11) and no validator depends on the order, so a parser that
+        # concatenates the two passes is indistinguishable for a user.  Only loss / duplication / errors are.
+        out['cover']['md+html merge'] = out['cover'].get('md+html merge', 0) + 1
+    out.update(Agg('C03', 'x').stats_from(stats))
+    return out
+
+
+def as_sstr_b(I, v):
+    from mirsym.models import as_sstr
+    return as_sstr(I, v).b
+
+
+def confirm_mdmerge(binary, prop, v, idx):
+    """Replay: a Markdown file that alternates the two comment kinds."""
+    files = {'mix.md': (b'[//]: # (<block name="m0">)\n\ntext\n\n[//]: # (</block>)\n\n'
+                        b'<!-- <block name="h0"> -->\n\ntext\n\n<!-- </block> -->\n\n'
+                        b'[//]: # (<block name="m1">)\n\ntext\n\n[//]: # (</block>)\n\n'
+                        b'<!-- <block name="h1"> -->\n\ntext\n\n<!-- </block> -->\n')}
+    want = ['m0', 'h0', 'm1', 'h1']
+    d = scratch_dir('mdmerge')
+    try:
+        git_init(d)
+        for fn, content in files.items():
+            open(os.path.join(d, fn), 'wb').write(content)
+        r = run_blockwatch(binary, d, ['list', '**'], stdin=b'')
+    finally:
+        shutil.rmtree(d, ignore_errors=True)
+    got = None
+    try:
+        got = [b['name'] for b in json.loads(r['stdout']).get('mix.md', [])]
+    except (ValueError, KeyError):
+        pass
+    v['observed'] = dict(code=r['code'], names=got, stderr=r['stderr'][-200:])
+    v['expected'] = want
+    v['confirmed'] = got != want
+    if v['confirmed']:
+        v['replay'] = save_replay(prop, 'mdmerge-%s-%d' % (v['role'], idx), files, "list '**'",
+                                  'expected blocks in the order %s; %s' % (want, v['summary']), v)
+    return v
